@@ -342,3 +342,181 @@ Theorem C08_least_check_sound_real :
     xle (w_xr s) (xr_of_ereal b) = true.
 Proof. exact least_check_sound_real. Qed.
 Print Assumptions C08_least_check_sound_real.
+
+(* ------------------------------------------------------------------------- *)
+(** * (E) the float level for EVERY IEEE-754 binary format (Flocq): binary32 AND binary64
+
+    [ff_*] = the formulas of semirings.py over Flocq's one-NaN [binary_float prec emax],
+    round-to-nearest-even (Model/FloatFormat.v); [fp_*] = the same over IEEE floats with NaN
+    payloads, for any NaN-choosing function.  All theorems quantify over all values of the
+    format and over every [prec], [emax] with [0 < prec < emax].
+    These theorems (and only these) rest on Flocq, hence on the standard library's real-number
+    assumptions; Print Assumptions lists them, harness/core.py names each one.
+    Associativity of + and * and distributivity of * over + are NOT laws of floats: see the
+    [_refuted] theorems; they are laws of the exact carriers of part (A) only. *)
+Require Import Fggs.Model.FloatFormat Fggs.Proofs.FloatFormatLaws Fggs.Proofs.FloatFormatPayload
+               Fggs.Proofs.FloatFormatPrim.
+
+Section FloatFormatStatements.
+Variable prec emax : Z.
+Variable Hp : Flocq.Core.FLX.Prec_gt_0 prec.
+Variable He : SN.Prec_lt_emax prec emax.
+Notation bf := (SN.binary_float prec emax).
+Notation fadd := (ff_add prec emax Hp He).
+Notation fmul := (ff_mul prec emax Hp He).
+Notation rmul := (ff_real_mul prec emax Hp He).
+Notation vmul := (ff_vit_mul prec emax Hp He).
+Notation fmx := (ff_max prec emax).
+Notation fle := (ff_leb prec emax).
+Notation f0 := (ff_zero prec emax).
+Notation f1 := (ff_one prec emax Hp He).
+Notation fninf := (ff_ninf prec emax).
+
+(** commutativity of add / mul (bit for bit), hence of Real add/mul and Viterbi/Log mul *)
+Definition C08_fmt_comm_stmt := forall x y : bf,
+  fadd x y = fadd y x /\ fmul x y = fmul y x /\ rmul x y = rmul y x /\ vmul x y = vmul y x.
+(** zero annihilates Real mul: the result is a zero for every x (inf and NaN included, thanks to
+    nan_to_num), and +0 unless x carries a minus sign *)
+Definition C08_fmt_real_annihilation_stmt := forall x : bf,
+  (ff_is_zero prec emax (rmul f0 x) = true /\ ff_is_zero prec emax (rmul x f0) = true) /\
+  (SN.Bsign x = false -> rmul f0 x = f0 /\ rmul x f0 = f0).
+(** identities: x + 0 = x (x <> -0), x * 1 = x for EVERY x (rounding a representable value),
+    Real mul by one on the carrier *)
+Definition C08_fmt_identities_stmt := forall x : bf,
+  (x <> ff_nzero prec emax -> fadd x f0 = x /\ fadd f0 x = x) /\
+  (fmul x f1 = x /\ fmul f1 x = x) /\
+  (SN.is_nan x = false -> x <> fninf -> rmul x f1 = x /\ rmul f1 x = x).
+(** add and mul are monotone on [0, +inf] (rounding is monotone; overflow to +inf included) *)
+Definition C08_fmt_real_monotone_stmt := forall a b c : bf,
+  fle f0 a = true -> fle f0 c = true -> fle a b = true ->
+  fle (fadd a c) (fadd b c) = true /\ fle (rmul a c) (rmul b c) = true.
+(** maximum: idempotent, associative (exactly, NaN included), commutative up to the pair {+0,-0};
+    -inf is its identity *)
+Definition C08_fmt_max_laws_stmt := forall x y z : bf,
+  fmx x x = x /\ fmx (fmx x y) z = fmx x (fmx y z) /\
+  (fmx x y = fmx y x \/ (ff_is_zero prec emax x = true /\ ff_is_zero prec emax y = true)) /\
+  fmx fninf x = x /\ fmx x fninf = x.
+(** Viterbi/Log mul: -inf annihilates every x ((-inf) + (+inf) and NaN included), monotone on the
+    whole format, distributes over maximum EXACTLY for non-NaN operands *)
+Definition C08_fmt_viterbi_mul_stmt := forall a b c : bf,
+  (vmul fninf a = fninf /\ vmul a fninf = fninf) /\
+  (fle a b = true -> fle (vmul a c) (vmul b c) = true) /\
+  (SN.is_nan a = false -> SN.is_nan b = false ->
+     vmul (fmx a b) c = fmx (vmul a c) (vmul b c) /\ vmul c (fmx a b) = fmx (vmul c a) (vmul c b)).
+(** Viterbi star law in floats, for every x *)
+Definition C08_fmt_viterbi_star_stmt := forall x : bf,
+  ff_vit_star prec emax x = fmx (ff_vit_one prec emax) (vmul x (ff_vit_star prec emax x)).
+End FloatFormatStatements.
+
+Theorem C08_fmt_comm : forall prec emax Hp He, C08_fmt_comm_stmt prec emax Hp He.
+Proof. exact (fun prec emax Hp He => proj1 (ff_laws_hold prec emax Hp He)). Qed.
+Print Assumptions C08_fmt_comm.
+
+Theorem C08_fmt_real_annihilation : forall prec emax Hp He, C08_fmt_real_annihilation_stmt prec emax Hp He.
+Proof. exact (fun prec emax Hp He x => conj (ff_real_mul_zero_is_zero prec emax Hp He x) (ff_real_mul_zero prec emax Hp He x)). Qed.
+Print Assumptions C08_fmt_real_annihilation.
+
+Theorem C08_fmt_identities : forall prec emax Hp He, C08_fmt_identities_stmt prec emax Hp He.
+Proof. exact (fun prec emax Hp He x => conj (ff_add_zero prec emax Hp He x) (conj (ff_mul_one prec emax Hp He x) (ff_real_mul_one prec emax Hp He x))). Qed.
+Print Assumptions C08_fmt_identities.
+
+Theorem C08_fmt_real_monotone : forall prec emax Hp He, C08_fmt_real_monotone_stmt prec emax Hp He.
+Proof. exact (fun prec emax Hp He a b c H1 H2 H3 => conj (ff_add_mono prec emax Hp He a b c H1 H2 H3) (ff_real_mul_mono prec emax Hp He a b c H1 H2 H3)). Qed.
+Print Assumptions C08_fmt_real_monotone.
+
+Theorem C08_fmt_max_laws : forall prec emax, C08_fmt_max_laws_stmt prec emax.
+Proof. exact (fun prec emax x y z => conj (ff_max_idem prec emax x) (conj (ff_max_assoc prec emax x y z) (conj (ff_max_comm prec emax x y) (ff_max_ninf prec emax x)))). Qed.
+Print Assumptions C08_fmt_max_laws.
+
+Theorem C08_fmt_viterbi_mul : forall prec emax Hp He, C08_fmt_viterbi_mul_stmt prec emax Hp He.
+Proof.
+  exact (fun prec emax Hp He a b c =>
+    conj (ff_vit_mul_ninf prec emax Hp He a)
+   (conj (ff_vit_mul_mono prec emax Hp He a b c)
+         (fun Na Nb => conj (ff_vit_mul_max_distr prec emax Hp He a b c Na Nb)
+                            (ff_vit_mul_max_distr_l prec emax Hp He a b c Na Nb)))).
+Qed.
+Print Assumptions C08_fmt_viterbi_mul.
+
+Theorem C08_fmt_viterbi_star : forall prec emax Hp He, C08_fmt_viterbi_star_stmt prec emax Hp He.
+Proof. exact ff_vit_star_unfold. Qed.
+Print Assumptions C08_fmt_viterbi_star.
+
+(** the same laws for IEEE floats with NaN payloads, for every NaN-choosing function, stated up
+    to "both sides NaN" ([fp_same]; the bundle [fp_laws] is spelled out in
+    Proofs/FloatFormatPayload.v), and the two formats of the library explicitly *)
+Theorem C08_fmt_payload_laws : forall prec emax Hp He, fp_laws prec emax Hp He.
+Proof. exact fp_laws_hold. Qed.
+Print Assumptions C08_fmt_payload_laws.
+
+Theorem C08_float_binary32_laws : ff_laws 24 128 prec32 emax32 /\ fp_laws 24 128 prec32 emax32.
+Proof. exact (conj ff_laws_binary32 fp_laws_binary32). Qed.
+Print Assumptions C08_float_binary32_laws.
+
+Theorem C08_float_binary64_laws : ff_laws 53 1024 prec64 emax64 /\ fp_laws 53 1024 prec64 emax64.
+Proof. exact (conj ff_laws_binary64 fp_laws_binary64). Qed.
+Print Assumptions C08_float_binary64_laws.
+
+(** every IEEE operation of the check's model commutes with forgetting the payload, so the
+    bit-level model evaluated by the correspondence check ([fp_*]) and the layer the laws are
+    proved on ([ff_*]) are the same function up to NaN payloads *)
+Theorem C08_fmt_payload_model_agrees :
+  forall prec emax Hp He pnan x y,
+    FB.B2BSN prec emax (fp_real_mul prec emax Hp He pnan x y) = ff_real_mul prec emax Hp He (FB.B2BSN prec emax x) (FB.B2BSN prec emax y) /\
+    FB.B2BSN prec emax (fp_vit_mul prec emax Hp He pnan x y) = ff_vit_mul prec emax Hp He (FB.B2BSN prec emax x) (FB.B2BSN prec emax y) /\
+    FB.B2BSN prec emax (fp_add prec emax Hp He pnan x y) = ff_add prec emax Hp He (FB.B2BSN prec emax x) (FB.B2BSN prec emax y) /\
+    FB.B2BSN prec emax (fp_max prec emax x y) = ff_max prec emax (FB.B2BSN prec emax x) (FB.B2BSN prec emax y) /\
+    FB.B2BSN prec emax (fp_real_sub prec emax Hp He pnan x y) = ff_real_sub prec emax Hp He (FB.B2BSN prec emax x) (FB.B2BSN prec emax y) /\
+    FB.B2BSN prec emax (fp_real_star prec emax Hp He pnan x) = ff_real_star prec emax Hp He (FB.B2BSN prec emax x) /\
+    FB.B2BSN prec emax (fp_vit_star prec emax x) = ff_vit_star prec emax (FB.B2BSN prec emax x).
+Proof.
+  exact (fun prec emax Hp He pnan x y =>
+    conj (fp_real_mul_B2BSN prec emax Hp He pnan x y) (conj (fp_vit_mul_B2BSN prec emax Hp He pnan x y)
+   (conj (fp_add_B2BSN prec emax Hp He pnan x y) (conj (fp_max_B2BSN prec emax x y)
+   (conj (fp_real_sub_B2BSN prec emax Hp He pnan x y) (conj (fp_real_star_B2BSN prec emax Hp He pnan x)
+         (fp_vit_star_B2BSN prec emax x))))))).
+Qed.
+Print Assumptions C08_fmt_payload_model_agrees.
+
+(** ** FALSE in floating point (laws of the exact carriers only): concrete witnesses
+    (binary32: 0.1f, 0.1f, 0.7f / 0.1f, 0.1f, 10f / 0.1f*(0.1f+0.7f);
+     binary64: 0.1, 0.1, 1.1 / 0.1, 0.1, 0.3 / 0.1*(0.1+0.3)) *)
+Theorem C08_float_assoc_distr_refuted_binary32 :
+  (exists x y z, ff_add 24 128 prec32 emax32 (ff_add 24 128 prec32 emax32 x y) z
+              <> ff_add 24 128 prec32 emax32 x (ff_add 24 128 prec32 emax32 y z)) /\
+  (exists x y z, ff_real_mul 24 128 prec32 emax32 (ff_real_mul 24 128 prec32 emax32 x y) z
+              <> ff_real_mul 24 128 prec32 emax32 x (ff_real_mul 24 128 prec32 emax32 y z)) /\
+  (exists x y z, ff_real_mul 24 128 prec32 emax32 x (ff_add 24 128 prec32 emax32 y z)
+              <> ff_add 24 128 prec32 emax32 (ff_real_mul 24 128 prec32 emax32 x y) (ff_real_mul 24 128 prec32 emax32 x z)).
+Proof. exact (conj ff_add_assoc_refuted_binary32 (conj ff_mul_assoc_refuted_binary32 ff_real_distr_refuted_binary32)). Qed.
+Print Assumptions C08_float_assoc_distr_refuted_binary32.
+
+Theorem C08_float_assoc_distr_refuted_binary64 :
+  (exists x y z, ff_add 53 1024 prec64 emax64 (ff_add 53 1024 prec64 emax64 x y) z
+              <> ff_add 53 1024 prec64 emax64 x (ff_add 53 1024 prec64 emax64 y z)) /\
+  (exists x y z, ff_real_mul 53 1024 prec64 emax64 (ff_real_mul 53 1024 prec64 emax64 x y) z
+              <> ff_real_mul 53 1024 prec64 emax64 x (ff_real_mul 53 1024 prec64 emax64 y z)) /\
+  (exists x y z, ff_real_mul 53 1024 prec64 emax64 x (ff_add 53 1024 prec64 emax64 y z)
+              <> ff_add 53 1024 prec64 emax64 (ff_real_mul 53 1024 prec64 emax64 x y) (ff_real_mul 53 1024 prec64 emax64 x z)).
+Proof. exact (conj ff_add_assoc_refuted_binary64 (conj ff_mul_assoc_refuted_binary64 ff_real_distr_refuted_binary64)). Qed.
+Print Assumptions C08_float_assoc_distr_refuted_binary64.
+
+(** ** the primitive-float model of part (C) is the binary64 instance (Flocq's Prim2B), so the
+    former tier-B items hold on it: x*1 = x, monotonicity on [0,inf], exact Viterbi
+    distributivity, the Viterbi star law *)
+Theorem C08_float_prim_identity_monotone :
+  (forall x, PrimFloat.mul x PrimFloat.one = x /\ PrimFloat.mul PrimFloat.one x = x) /\
+  (forall x, PrimFloat.is_nan x = false -> x <> PrimFloat.neg_infinity ->
+     freal_mul x PrimFloat.one = x /\ freal_mul PrimFloat.one x = x) /\
+  (forall a b c, PrimFloat.leb PrimFloat.zero a = true -> PrimFloat.leb PrimFloat.zero c = true -> PrimFloat.leb a b = true ->
+     PrimFloat.leb (freal_add a c) (freal_add b c) = true /\ PrimFloat.leb (freal_mul a c) (freal_mul b c) = true).
+Proof. exact (conj prim_mul_one (conj prim_real_mul_one prim_real_mono)). Qed.
+Print Assumptions C08_float_prim_identity_monotone.
+
+Theorem C08_float_prim_viterbi :
+  (forall a b c, PrimFloat.is_nan a = false -> PrimFloat.is_nan b = false ->
+     fvit_mul (fvit_add a b) c = fvit_add (fvit_mul a c) (fvit_mul b c)) /\
+  (forall a b c, PrimFloat.leb a b = true -> PrimFloat.leb (fvit_mul a c) (fvit_mul b c) = true) /\
+  (forall x, fvit_star x = fvit_add PrimFloat.zero (fvit_mul x (fvit_star x))).
+Proof. exact (conj prim_vit_mul_max_distr (conj prim_vit_mul_mono prim_vit_star_unfold)). Qed.
+Print Assumptions C08_float_prim_viterbi.
